@@ -267,6 +267,32 @@ def run_c12(prop, tier, seed, replay=None):
         accepted = sum(1 for l in events if json.loads(l)["parse_ok"])
         if accepted * 10 < len(events) * 9:
             raise vf.ToolError(f"only {accepted} of {len(events)} generated schemas were accepted by the parser (generator drifted)")
+        # the same scenarios with field names / enum symbols respelt outside ASCII, in a process where the permissive
+        # symbol / field-name validators (a documented process-wide setting) are installed
+        if replay:
+            ex = [s for s in scns if json.loads(s).get("exotic")]
+        else:
+            named = [s for s in scns if '"fields"' in s or '"symbols"' in s]
+            ex = [json.dumps(dict(json.loads(s), exotic=True)) for s in sample_evenly(named, 120 if tier == "quick" else 1200)]
+        if ex:
+            exf, exo = work / "exotic.scn.ndjson", work / "exotic.events.ndjson"
+            exf.write_text("\n".join(ex) + "\n")
+            run_bin("avh_c12", ["run", "--scn", exf, "--out", exo, "--exotic", 1])
+            exev = add_reference_digests(lines_of(exo))
+            if len(exev) != len(ex):
+                raise vf.ToolError(f"harness recorded {len(exev)} exotic events for {len(ex)} scenarios")
+            okx = sum(1 for l in exev if json.loads(l)["parse_ok"])
+            if not replay and okx * 10 < len(exev) * 8:
+                raise vf.ToolError(f"only {okx} of {len(exev)} exotic schemas were accepted (validators not installed?)")
+            rep.cov["exotic_name_scenarios"] = len(ex)
+            if replay:
+                scns, events = [], []
+            base_n = len(scns)
+            for l in exev:
+                e = json.loads(l)
+                e["id"] = base_n + e["id"]
+                events.append(json.dumps(e))
+            scns = scns + ex
     ncanon = len(events)
     if hash_args:
         hf = work / "hash.ndjson"
